@@ -66,8 +66,8 @@ theorem sq_fsmNotificationReceived (s : Sess) (e sub : Nat) : Quiet s (s.fsmNoti
   unfold fsmNotificationReceived
   split
   · split
-    · exact ((sq_setRetry s _).trans (sq_closeConn _)).trans (sq_setSt _ _)
-    · exact ((sq_setRetry s _).trans (sq_closeConn _)).trans (sq_setSt _ _)
+    · exact ((((sq_setRetry s _).trans (sq_setHold _ _)).trans (sq_setKeepalive _ _)).trans (sq_closeConn _)).trans (sq_setSt _ _)
+    · exact ((((sq_setRetry s _).trans (sq_setHold _ _)).trans (sq_setKeepalive _ _)).trans (sq_closeConn _)).trans (sq_setSt _ _)
     · exact sq_errorClose _
     · exact sq_errorClose _
     · exact sq_errorClose _
